@@ -96,7 +96,7 @@ static void prop(Tape &t, Ctx &c) {
             }
             break; }
         }
-        leak.check(fmt("api=%s rc=%d", names[api], rc));
+        C09_LEAK_CHECK(leak, "api=%s rc=%d", names[api], rc);
     }
     if (rc >= 0) c.count(fmt("parsed.api%u.type%d", api, type));
     else if (deep) c.count(fmt("rejected.deep.api%u", api)); else c.count("rejected.shallow");
